@@ -3,7 +3,7 @@
     saveTree, loadTree). [run prims_fixed h init storage0] executes ANY history [h] of tree operations in which
     [OSave] may occur at ANY positions. *)
 From Coq Require Import NArith List.
-From VB Require Import Store.SaveLoadDefs Store.SaveLoadProofs Store.SaveLoadTheorems Store.LoadProofs.
+From VB Require Import Store.SaveLoadDefs Store.SaveLoadProofs Store.SaveLoadTheorems Store.LoadProofs Store.LoadSort.
 Import ListNotations.
 Local Open Scope N_scope.
 
@@ -55,17 +55,19 @@ Print Assumptions C10_load_blocks_topological.
 
 (* full statement shape of the property, PARTIAL: for any history and any placement of saves, loading the
    accumulated storage succeeds and gives the tip and every live block's persisted projection as of the last
-   save - under two premises about the saved state that are NOT proved for all reachable states (the model's
-   operations take their block lists as free arguments): the height sort is a parent-before-child order and the
-   stored active chain is ACTIVE and fully valid; endorsedBy lists and dirty bits are not described *)
+   save.  Premises about the saved state (NOT proved for all reachable states, because the model's operations take
+   their block lists as free arguments): it is structurally consistent ([consistent_list]: unique ids, every index
+   VALID_TREE or FAILED_POP, parents present one below, endorsed blocks present and lower) - from which the
+   parent-before-child order of the height sort is PROVED - the tip is a live block, and the stored active chain is
+   ACTIVE and fully valid.  The rebuilt endorsedBy lists and the dirty bits are not described. *)
 Theorem C10_reload_equiv_partial :
   forall h s st,
   run prims_fixed (h ++ [OSave]) init storage0 = Done s st ->
   let live := filter (fun x => negb (s_deleted (p_status (snd x)))) (st_blocks (full_dump s)) in
-  topo_ok [] (sort_by_height live) ->
+  consistent_list live ->
   lookup (sort_by_height live) (tip s) <> None ->
   (forall fuel, chain_ok fuel (lookup (sort_by_height live)) (tip s) = true) ->
   exists s', load prims_fixed st = Loaded s' /\ tip s' = tip s /\
              forall k, pv (blocks s') k = lookup (sort_by_height live) k.
-Proof. exact reload_equiv_partial. Qed.
+Proof. exact reload_equiv_consistent_partial. Qed.
 Print Assumptions C10_reload_equiv_partial.
